@@ -35,8 +35,15 @@ def cases(run: Run):
             events.append({"kind": "add", "step": rng.randint(1, total - 1), "tid": 10101})
         if total >= 3 and nt >= 2 and rng.random() < 0.5:
             events.append({"kind": "remove", "step": rng.randint(1, total - 1), "tid": 10001 + rng.randrange(nt)})
-        out.append({"dt": dt, "out": outk * dt, "span": span_steps * dt, "steps": total, "cuts": cuts, "ns": rng.randint(1, 2), "nt": nt,
+        ns = rng.randint(1, 2)
+        if total >= 3 and ns >= 2 and rng.random() < 0.6:
+            # a sensor that leaves the scenario (the other one stays), with output steps still to come
+            events.append({"kind": "remove", "step": rng.randint(1, total - 1), "tid": 60001 + rng.randrange(ns), "atype": "sensor"})
+        out.append({"dt": dt, "out": outk * dt, "span": span_steps * dt, "steps": total, "cuts": cuts, "ns": ns, "nt": nt,
                     "truth_only": rng.random() < 0.25, "start_sec": rng.choice([0, 0, 9, 30]), "seed": rng.randint(1, 10**6), "events": events})
+    # pinned: a sensor that leaves early with nothing else happening afterwards (no later addition or removal to rebuild anything), several output steps to come
+    out.append({"dt": 60, "out": 60, "span": 360, "steps": 5, "cuts": [3], "ns": 2, "nt": 1, "truth_only": True, "start_sec": 0, "seed": 4242,
+                "events": [{"kind": "remove", "step": 2, "tid": 60002, "atype": "sensor"}]})
     # the shape that needs care: run past the configured stop with output_step = 2 dt
     out.append({"dt": 60, "out": 120, "span": 120, "steps": 6, "cuts": [3], "ns": 1, "nt": 2, "truth_only": False, "start_sec": 0, "seed": 7})
     # ... and with an output step of several physics steps, the configured stop inside a save interval and the run going well past it: rows written at
@@ -84,7 +91,7 @@ def build_case(c):
                            "tasking_engine_id": 1, "target_agent": scen.target_cfg(ev["tid"], r, v)})
         else:
             events.append({"scope": "scenario_step", "scope_instance_id": 0, "start_time": when, "end_time": when, "event_type": "agent_removal",
-                           "tasking_engine_id": 1, "agent_id": ev["tid"], "agent_type": "target"})
+                           "tasking_engine_id": 1, "agent_id": ev["tid"], "agent_type": ev.get("atype", "target")})
     cfg = scen.scenario_cfg(start, c["dt"], c["span"], eng, out_step=c["out"], truth_only=c["truth_only"], seed=c["seed"], events=events)
     if c.get("md"):
         cfg["estimation"]["sequential_filter"]["maneuver_detection"] = {"name": "standard_nis", "threshold": 0.05}
